@@ -96,9 +96,15 @@ def judge(m, r=None):
         drop = M // 2
         keep = [i for i in range(M) if i != drop]
         if len(keep) >= 2 or m['op'] != 'welch':
-            C2 = matrix_of(m, run_impl(put_data(dict(m), rows[keep])))
+            r2 = run_impl(put_data(dict(m), rows[keep]))
+            C2 = matrix_of(m, r2)
             if not rel_close(C2, C[np.ix_(keep, keep)], lo):
                 bad.append(('subset', 'removing channel %d changes the entries of the remaining pairs' % drop))
+            # the entries are indexed by frequency: the frequency vector returned with the matrix must not depend on
+            # which other channels are present either (a single-channel shortcut must report the same axis)
+            f1, f2 = r.get('f') if isinstance(r, dict) else None, r2.get('f') if isinstance(r2, dict) else None
+            if f1 is not None and f2 is not None and (np.shape(f1) != np.shape(f2) or not np.allclose(f1, f2, rtol=1e-12, atol=0)):
+                bad.append(('subset-freqs', 'removing channel %d changes the frequency vector returned with the matrix' % drop))
         perm = list(range(1, M)) + [0] if M > 2 else [1, 0]
         C3 = matrix_of(m, run_impl(put_data(dict(m), rows[perm])))
         if not rel_close(C3, C[np.ix_(perm, perm)], lo):
